@@ -183,8 +183,8 @@ class Ctx:
 
     # ------------------------------------------------------------------ verdict
     def finish(self, level_text="", unproven=(), full_strength=True):
-        os.makedirs(os.path.join(VERIF, "evidence"), exist_ok=True)
-        os.makedirs(os.path.join(VERIF, "replays"), exist_ok=True)
+        os.makedirs(os.path.join(run.OUT, "evidence"), exist_ok=True)
+        os.makedirs(os.path.join(run.OUT, "replays"), exist_ok=True)
         known = load_known()
         open_entries = [k for k in known if k["property"] == self.pid and k["status"] == "open"]
         hits = Counter()
@@ -239,7 +239,7 @@ class Ctx:
             "assumptions": self.assumptions + self.notes,
             "wall_s": round(time.time() - self.t0, 2), "violations": nviol,
         }
-        with open(os.path.join(VERIF, "evidence", self.pid + ".json"), "w") as f:
+        with open(os.path.join(run.OUT, "evidence", self.pid + ".json"), "w") as f:
             json.dump(ev, f, indent=1)
         for l in out:
             print(l)
@@ -248,7 +248,7 @@ class Ctx:
         return rc
 
     def _replay(self, kind, fails, extra=None):
-        path = os.path.join(VERIF, "replays", "%s-%d-%d.json" % (self.pid, self.seed, int(time.time())))
+        path = os.path.join(run.OUT, "replays", "%s-%d-%d.json" % (self.pid, self.seed, int(time.time())))
         d = {"property": self.pid, "tier": self.tier, "seed": self.seed, "kind": kind,
              "cases": [f.to_json() for f in fails],
              "how_to_replay": "./check.py %s --replay %s   (re-executes the case lines on the current /repo and on the model)" % (self.pid, path)}
